@@ -262,6 +262,11 @@ pub fn minimize_file(path: &str, out: &str) -> i32 {
             if cand != *rf.spec.as_ref().unwrap() {
                 try_spec!(cand);
             }
+            if rf.spec.as_ref().unwrap().ballast > 0 {
+                let mut cand = rf.spec.as_ref().unwrap().clone();
+                cand.ballast = 0;
+                try_spec!(cand);
+            }
             if rf.spec.as_ref().unwrap().build_on_thread.iter().any(|&b| b) {
                 let mut cand = rf.spec.as_ref().unwrap().clone();
                 cand.build_on_thread.iter_mut().for_each(|b| *b = false);
